@@ -350,6 +350,8 @@ def classify_known(src, err):
         return "modulo_on_double"
     if re.search(r"[&|^]", src) and re.search(r"invalid conversion from .int. to .\w+::\w+", err):
         return "bitwise_operator_on_plain_enums"
+    if "[" in src and re.search(r"narrowing conversion of .-?\d+. from .(long int|int|long unsigned int). to .(int|unsigned int|uint).", err):
+        return "integer_constant_outside_element_type_in_list"
     return None
 
 
